@@ -214,7 +214,8 @@ def check_seq(ctx, ops, pkce_required, tag):
             t_issue[out[1]] = now
         if o["op"] == "device_authorize" and out[0] == "device":
             devs[out[1]] = (o.get("client_param"), now, o.get("scope"))
-        if o["op"] == "decide":
+        if o["op"] == "decide" and o["device"] in devs:
+            # a decision is made on the page reached with the device's user code: there is none before the device exists
             decisions[o["device"]] = (o["user"], o["approve"])
         if o["op"] == "redeem" and out[0] == "token":
             a = issued.get(o.get("code"))
